@@ -147,7 +147,7 @@ def build(sp, meta=True, as_list=False):
         for d, lab, k, lt in zip(sp["dims"], sp["labels"], sp["kinds"], lts):
             ax = da.Axis(np_labels(lab, k, lt), d)
             if meta:
-                ax._attrs.update(monitors.axis_sentinel(d))
+                ax.attrs.update(monitors.axis_sentinel(d))
             axes.append(ax)
         v = np.array(sp["values"], copy=True)
         if sp.get("forder") and v.ndim >= 2:
@@ -189,9 +189,9 @@ def build(sp, meta=True, as_list=False):
                           type(e).__name__, str(e)[:200], sp["dims"], sp["labels"], np.shape(sp["values"])))
         raise
     if meta:
-        a._attrs.update(monitors.sentinel_attrs())
+        a.attrs.update(monitors.sentinel_attrs())
     if "attrs" in sp:
-        a._attrs.update(sp["attrs"])
+        a.attrs.update(sp["attrs"])
     if sp.get("prime"):
         for ax in a.axes:
             ax.is_monotonic()
